@@ -793,7 +793,7 @@ def run(ck: Check):
         drv = Driver("drv_C21")
         leg_t(ck, drv, workdir)
         leg_t_contexts(ck, drv, workdir, full=not ck.quick, escalated=getattr(ck, "escalated", False))
-        c21_jexpr.leg(ck, drv, 2500 if ck.quick and not getattr(ck, "escalated", False) else 40000)
+        c21_jexpr.leg(ck, drv, 2500 if ck.quick and not getattr(ck, "escalated", False) else 40000, workdir)
         leg_s(ck, workdir)
     except javagen.BenchTimeout as e:
         raise ToolFailure("timeout in " + str(e))
@@ -803,6 +803,8 @@ def run(ck: Check):
 
 def replay(ck: Check, rp):
     c = rp.get("case") or {}
+    if c.get("kind") == "jexpr":
+        return c21_jexpr.replay(ck, c)
     if c.get("kind") == "method":
         m = method_of_case(c)
         tup = {m["name"]: [tuple(t) for t in c["tuples"]]}
